@@ -916,6 +916,9 @@ func tierCase(r *rng, kind string) line {
 	} else {
 		tags = append(tags, "layout:tier-default-pass")
 	}
+	if hasAbsent(pols) {
+		tags = append(tags, "has:absent-policy")
+	}
 	tags = append(tags, fmt.Sprintf("policies:%d", npol), "dir:"+map[bool]string{true: "in", false: "out"}[inbound])
 	prios := map[int]bool{}
 	for _, h := range impl {
